@@ -955,13 +955,29 @@ func c17events(out *rec.Out, rng *rec.Rng, stats map[string]int, cfg c17cfg) {
 		after := g.Task("task", "A", "")
 		st := g.Add("startEvent", "start", "")
 		en := g.Add("endEvent", "end", "")
-		g.Connect(st, h.Entry, nil)
+		// half of the cases: the host is entered by several tokens — one straight from a fork, the others once the
+		// tasks U_i in front of it are answered, which races with the deliveries (an activity activated again while
+		// its boundary event is being handled)
+		multi := rng.Intn(2) == 0
+		if multi {
+			f := g.Add("parallelGateway", "F", "")
+			g.Connect(st, f, nil)
+			g.Connect(f, h.Entry, nil)
+			for i, nu := 0, 2+rng.Intn(4); i < nu; i++ {
+				u := g.Add("task", fmt.Sprintf("U%d", i), "")
+				g.Connect(f, u, nil)
+				g.Connect(u, h.Entry, nil)
+			}
+			stats["bnd_host_entered_by_several_tokens"]++
+		} else {
+			g.Connect(st, h.Entry, nil)
+		}
 		g.Connect(h.Exit, after.Entry, nil)
 		g.Connect(after.Exit, en, nil)
 		for j := 0; j < k; j++ {
 			b := g.Add("boundaryEvent", fmt.Sprintf("B%d", j), "")
 			b.Attached = "H"
-			b.Interrupting = j == 0 && rng.Bool()
+			b.Interrupting = j == 0 && (multi || rng.Bool())
 			b.Defs = []eng.EventDef{{Kind: kinds[j], Name: names[j]}}
 			t := g.Add("task", fmt.Sprintf("T%d", j), "")
 			en2 := g.Add("endEvent", fmt.Sprintf("end%d", j), "")
